@@ -136,36 +136,70 @@ def check_form(run, S, name, spec, kw):
     pass    # handled group-wise in check_groups
 
 
+def form_paths(run, S, name, post=None):
+    """[(guard key set, strict leaf keys, leaf, guards)] of the Return leaves of one spelling (None when not analysable /
+    panicking other than arithmetically)"""
+    from core import strict_leaves, strict_key
+    r = run.use_root(S, name)
+    if r is None:
+        run.ob('%s:%s:present' % (run.prop, name), False, rule='root-present', expected='harness root summarised', found='missing (API form vanished or wrapper failed to compile)')
+        return None
+    ls = ret_leaves(r['out'])
+    bad = [l for g_, l in ls if l['k'] in ('top', 'cut')]
+    if bad:
+        run.ob('%s:%s:analysable' % (run.prop, name), False, rule='analysable', expected='finite summary', found='not analysable: ' + str(bad[0].get('why')))
+        return None
+    rets = [(g_, l) for g_, l in ls if l['k'] == 'ret']
+    if not rets or len(rets) > 16:
+        run.ob('%s:%s:shape' % (run.prop, name), False, rule='straight-line', expected='1..16 Return leaves', found=len(rets), where=r.get('span'))
+        return None
+    out = []
+    memo = {}
+    for g_, l in rets:
+        gk = frozenset((kind, strict_key(S, tid, memo), want) for kind, tid, want in g_)
+        v = l['v'] if post is None else l['post'].get(post)
+        if v is None:
+            run.ob('%s:%s:post' % (run.prop, name), False, rule='K6', expected='post-state of the receiver', found='absent')
+            return None
+        out.append((gk, strict_leaves(S, v, None, memo), l, g_, v))
+    return r, out
+
+
 def check_groups(run, S, h):
     """K6: the spellings must compute the SAME term per component - compared structurally, identifying only
-    a+b with b+a and a*b with b*a (so x/s vs x*(1/s), which differ in rounding and for integers, do not agree)."""
-    from core import strict_leaves
+    a+b with b+a and a*b with b*a (so x/s vs x*(1/s), which differ in rounding and for integers, do not agree).
+    When the code special-cases some inputs, the spellings are compared path by path: the same path conditions must lead
+    to the same terms."""
     for base, forms, assign in h.groups:
-        sums = [single_ret(run, S, f) for f in forms]
-        ref = sums[0]
+        ref = form_paths(run, S, forms[0])
         if ref is None:
             continue
-        refk = strict_leaves(S, ref[1]['v'])
-        cv = Conv(S)
-        reftxt = [S.showval(ref[1]['v'])[:300]]
-        for f, sr in zip(forms[1:], sums[1:]):
-            if sr is None:
-                continue
-            k = strict_leaves(S, sr[1]['v'])
-            bad = [i for i, (x, y) in enumerate(zip(k, refk)) if x != y] if len(k) == len(refk) else ['arity']
-            run.ob('%s:%s=%s' % (PROP, forms[0], f), not bad, rule='K6 sibling agreement: by-reference spelling computes the same term as the by-value spelling',
-                   expected=reftxt[0], found='components %s differ: %s' % (bad[:4], S.showval(sr[1]['v'])[:300]) if bad else 'identical', where=sr[0].get('span'))
+        rref, pref = ref
+        refmap = {gk: (keys, v) for gk, keys, l, g_, v in pref}
+        reftxt = S.showval(pref[0][4])[:300]
+
+        def compare(f, other, rule):
+            r2, p2 = other
+            bad = []
+            for gk, keys, l, g_, v in p2:
+                if gk not in refmap:
+                    bad.append(('path', [S.show(t)[:60] for k_, t, w in g_][:3]))
+                    continue
+                rk = refmap[gk][0]
+                diff = [i for i, (x, y) in enumerate(zip(keys, rk)) if x != y] if len(keys) == len(rk) else ['arity']
+                if diff:
+                    bad.append((diff[:4], S.showval(v)[:200]))
+            if len(p2) != len(pref):
+                bad.append(('paths', '%d vs %d' % (len(p2), len(pref))))
+            run.ob('%s:%s=%s' % (PROP, forms[0], f), not bad, rule=rule, expected=reftxt, found='differ: %s' % bad[:3] if bad else 'identical', where=r2.get('span'))
+        for f in forms[1:]:
+            other = form_paths(run, S, f)
+            if other is not None:
+                compare(f, other, 'K6 sibling agreement: by-reference spelling computes the same term as the by-value spelling')
         if assign is not None:
-            sr = single_ret(run, S, assign)
-            if sr is not None:
-                post = sr[1]['post'].get('a0')
-                if post is None:
-                    run.ob('%s:%s:post' % (PROP, assign), False, rule='K6', expected='post-state of the receiver', found='absent')
-                else:
-                    k = strict_leaves(S, post)
-                    bad = [i for i, (x, y) in enumerate(zip(k, refk)) if x != y] if len(k) == len(refk) else ['arity']
-                    run.ob('%s:%s=%s' % (PROP, forms[0], assign), not bad, rule='K6 sibling agreement: a op= b leaves in a exactly the value of a op b',
-                           expected=reftxt[0], found='components %s differ: %s' % (bad[:4], S.showval(post)[:300]) if bad else 'identical', where=sr[0].get('span'))
+            other = form_paths(run, S, assign, post='a0')
+            if other is not None:
+                compare(assign, other, 'K6 sibling agreement: a op= b leaves in a exactly the value of a op b')
 
 
 def check_left(run, S, name, spec, kw):
